@@ -170,6 +170,38 @@ func c03Directed(w *c03World, rng *rand.Rand, start c03Start, startWith c03Start
 		}
 		out = append(out, r)
 	}
+	// (3e) repeated slashes of one operator while undelegations from it are pending, cumulative proportion above 100 %:
+	// every slash takes floor(p * Amount) from a record but never more than what it still owes. Boundary pool of
+	// proportions; LST and native token; records are then run to maturity.
+	for i, ps := range [][]string{{"0.6", "0.6"}, {"0.5", "0.5"}, {"0.999999999999999999", "0.000000000000000001", "0.3"},
+		{"0.4", "0.4", "0.4"}, {"0.6", "0.6"}} {
+		r := start(int64(3+i), nil)
+		native := i == 4
+		if native {
+			r.delegateN(0, 2, c03I(80_000))
+			r.delegateN(1, 2, c03I(7_777))
+			r.undelegateN(0, 2, c03I(30_000), r.nextNonce(), r.newTx())
+			r.undelegateN(1, 2, c03I(1_001), r.nextNonce(), r.newTx())
+		} else {
+			r.deposit(0, 0, c03I(100_000), false)
+			r.deposit(1, 0, c03I(9_999), false)
+			r.delegate(0, 0, 2, c03I(90_000))
+			r.delegate(1, 0, 2, c03I(9_999))
+			r.undelegate(0, 0, 2, c03I(40_000), r.nextNonce(), r.newTx())
+			r.undelegate(1, 0, 2, c03I(1_003), r.nextNonce(), r.newTx())
+		}
+		eh := r.ctx.BlockHeight()
+		for k, p := range ps {
+			if k == 1 {
+				r.endBlock() // the later slashes arrive in later blocks, infraction height still the undelegation block
+			}
+			r.slashTo(2, eh, sdkmath.LegacyMustNewDecFromStr(p))
+		}
+		for j := 0; j < 12; j++ {
+			r.endBlock()
+		}
+		out = append(out, r)
+	}
 	// (4..) repaired prefix scan: at height h a genesis-loaded record completes at a height whose hex starts with hex(h)
 	for _, hc := range [][2]uint64{{1, 19}, {1, 16}, {2, 0x2f}, {1, 0x100}, {0xa, 0xa0}, {0x12, 0x123}, {3, 0x3f}, {0xff, 0xff0}} {
 		r := start(int64(hc[0]), nil)
@@ -262,6 +294,20 @@ func c03Random(w *c03World, rng *rand.Rand, start c03Start, suite string) *c03Ru
 				bn = cur - uint64(rng.Intn(int(min64(int64(cur), 12))))
 			}
 			r.genesisLoad(st, as, op, c03Amount(rng, c03I(int64(rng.Intn(100_000)))), bn, cn, r.nextNonce(), r.newTx())
+		case x < 63 && len(r.recordKeys()) > 0:
+			// burst of 2-3 slashes of one operator with pending records, cumulative proportion around / above 100 %
+			pool := [][]string{{"0.6", "0.6"}, {"0.5", "0.5"}, {"0.999999999999999999", "0.001"}, {"0.34", "0.33", "0.34"}, {"0.7", "0.2", "0.2"}, {"1", "0.5"}}
+			ps := pool[rng.Intn(len(pool))]
+			eh := r.ctx.BlockHeight() - int64(rng.Intn(6))
+			if eh < 0 {
+				eh = 0
+			}
+			for _, p := range ps {
+				r.slashTo(op, eh, sdkmath.LegacyMustNewDecFromStr(p))
+				if rng.Intn(3) == 0 {
+					r.endBlock()
+				}
+			}
 		case x < 68:
 			props := []string{"0.1", "0.5", "1", "0.000001", "0.999999999999999999", "0", "0.25", "0.333333333333333333"}
 			p := sdkmath.LegacyMustNewDecFromStr(props[rng.Intn(len(props))])
